@@ -162,3 +162,21 @@ PROPS["C11"] = {
     "modelled_not_verified": ["dispatch: TransactionMut::call_observers / call_type_observers / add_changed_type and 'at most once per transaction' (checked on the implementation by the harness only)", "XmlEvent / XmlTextEvent plumbing around the three computations", "Weak link events"],
     "assumptions": ["UTF-16 offset kind", "hypotheses swf / kwf / twf of the theorems (deleted-in-transaction implies deleted, an added item can only have been deleted by the transaction, a new last entry of a key deletes its predecessor): checked on every real item list by the harness"],
 }
+
+PROPS["C19"] = {
+    "level": "proof", "harness": "ffi", "theorems": _GEN["C19"], "theorem_kinds": {"C19_written_value_is_what_is_stored": "unbounded (structural induction over nested values)", "C19_read_back_is_what_is_stored": "unbounded", "C19_tags_distinct": "finite (constants)"},
+    "rule": "generated programs of 20-60 C API calls grouped into transactions on a document created and driven ONLY through the exported extern \"C\" functions of yffi/src/lib.rs (compiled into the harness as a module), mirrored call by call with the native Rust API on a twin with the same options and client id; after EVERY transaction: encoded state v1 / v2 / state vector byte-equal, every getter compared with the Rust API on the twin and on the C document itself, every output cell walked with the youtput_read_ functions and compared with the Rust value and with the Coq model's output_of (runner command CELL); exchange of updates with a third natively driven replica, snapshots, sticky indexes, undo manager and observers compared call by call; every object released through its destroy function; cases run in child processes (a panic inside extern \"C\" aborts). Non-trivial = a case with a nested shared type or an exchange",
+    "trusted_base": ["coq/Codec/Cells.v is a hand transcription of YInput::into / From<Any> for YOutput / the youtput_read_ readers; tags regenerated from yffi/src/lib.rs on every run", "the twin: the harness's own mapping from each C call to the native call it should equal"],
+    "modelled_not_verified": ["all ~200 extern \"C\" wrappers (delegation; differential only)", "memory ownership across the boundary (exercised through the destroy functions, not proved)"],
+    "assumptions": ["valid handles and in-range arguments, as the property states"],
+}
+
+PROPS["C12"] = {
+    "level": "proof", "theorems": _GEN["C12"],
+    "theorem_kinds": {"C12_inverse_law_finite_universe": "finite (kernel VM enumeration: 10^6 programs of length 6 over 10 actions + 138^3 programs of length 3 over 138 actions, all prefixes)", "C12_undo_redo_keep_other_origins_insertions": "unbounded (invariant over all programs incl. other origins)", "C12_values_and_deletion_flags_are_never_altered": "unbounded"},
+    "rule": "three streams per case index, every case in a child process. flat: random programs over the root array and the root map (capture steps of 1-3 transactions under a controlled clock, transactions of another origin, undo, redo; GC on/off; tracked origin none or explicit) run on the implementation and on the extracted Coq model: visible content, both stack depths and the call's return value compared after EVERY action. inverse: scope = random non-empty subset of the four roots incl. nested types, formatting, XML; other origins (second local origin, remote peer) edit only outside the scope; the harness mirrors both stacks with the scoped content after each captured step (the oracle of UndoSpec.v) and requires every undo / redo call to land exactly on the mirrored content, passing over only steps that changed nothing visible. interference: other origins edit the scope too; undo / redo never changes a root outside the scope, deletes only tracked contributions or descendants of a container it deletes, leaves other origins' insertions visible unless a container above them went away; both replicas converge after exchanging everything. Non-trivial = a case with at least one undo call",
+    "trusted_base": ["coq/Crdt/Undo.v is a hand transcription of UndoManager::handle_after_transaction / pop / try_process, ItemPtr::redo and Store::follow_redone for a flat scope (tied by the per-action correspondence of the flat stream)", "capture grouping is explicit in the model; the harness injects the clock"],
+    "modelled_not_verified": ["nested shared types below the scope (ItemPtr::redo's parent re-creation and redone tracing across parents): decided on the implementation only", "text with formatting inside the scope (implementation only)", "GC / keep flags (implementation only)"],
+    "assumptions": ["the unbounded inverse law (Definition inverse_law) is proved for the finite universe named in the theorem only"],
+    "timeout_quick": 1800, "timeout_thorough": 6000, "coq_timeout": 1800,
+}
